@@ -39,6 +39,8 @@ macro_rules! eof_harness {
         #[kani::stub(alloc::fmt::format, stubs::fmt_format)]
         #[kani::stub(core::fmt::write, stubs::fmt_write)]
         #[kani::stub(<core::io::CustomOwner as core::ops::Drop>::drop, stubs::custom_owner_drop)]
+        #[kani::stub(<std::io::Error as core::fmt::Display>::fmt, stubs::io_error_display)]
+        #[kani::stub(<std::io::Error as core::fmt::Debug>::fmt, stubs::io_error_display)]
         fn $name() {
             eof_only_at_end::<$l>($tag);
         }
